@@ -479,6 +479,11 @@ def _check_one(i: int):
             except Exception:
                 mtxt = None
         return i, ('sat' if r == z3.sat else 'unknown'), mtxt, time.time() - t0, 'z3 (short budget: obligation of an open known finding)', (None if r == z3.sat else s.reason_unknown())
+    if quant_ax and _has_quantifier(ob.goal):
+        # a quantified goal may need an instance of a quantified axiom on its skolem terms: a short first attempt with all axioms
+        s0q, r0q = _solve(ob, _AXIOMS, _ground_injectivity(list(ob.pc) + [ob.goal]), min(_TIMEOUT_MS, 3000))
+        if r0q == z3.unsat:
+            return i, 'unsat', None, time.time() - t0, 'z3 (with the quantified axioms)', None
     # phase 1: quantifier-free axioms + ground injectivity instances (fewer axioms: unsat is sound, sat is a candidate)
     s, r = _solve(ob, ground_ax, _ground_injectivity(list(ob.pc) + [ob.goal]) if quant_ax else [], _TIMEOUT_MS)
     cand_model = None
@@ -508,6 +513,30 @@ def _check_one(i: int):
         if any(_re.fullmatch(pat, ob.name) for pat in _NO_RETRY):
             # an obligation of a listed, open known finding: it is expected to stay open; do not spend the retry budgets on it
             return i, verdict, None, time.time() - t0, solver, reason
+        if quant_ax:
+            # the quantified axioms themselves (injectivity of the declared f-string templates): needed when the application that
+            # must be inverted occurs under a quantifier of the goal, where no ground instance exists before skolemisation
+            s2q, r2q = _solve(ob, _AXIOMS, _ground_injectivity(list(ob.pc) + [ob.goal]), _TIMEOUT_MS)
+            if r2q == z3.unsat:
+                return i, 'unsat', None, time.time() - t0, 'z3 (with the quantified axioms)', None
+        # leave-one-out over the quantified assumptions: an irrelevant quantified fact (another loop invariant, an earlier clause)
+        # can send the instantiation engine astray; every such query has fewer assumptions, so unsat is sound
+        qidx = [k for k, p in enumerate(ob.pc) if _has_quantifier(p) and _has_forall_exists(p)]
+        if 2 <= len(qidx) <= 16 and os.environ.get('PYVC_NO_LOO') != '1':
+            inj = _ground_injectivity(list(ob.pc) + [ob.goal]) if quant_ax else []
+            for k in reversed(qidx):
+                sl = z3.Solver()
+                sl.set('timeout', 4000)
+                for a in _AXIOMS:
+                    sl.add(a)
+                for a in inj:
+                    sl.add(a)
+                for j, p in enumerate(ob.pc):
+                    if j != k:
+                        sl.add(p)
+                sl.add(z3.Not(ob.goal))
+                if _guarded_check(sl, 4000) == z3.unsat:
+                    return i, 'unsat', None, time.time() - t0, 'z3 (one quantified assumption left out)', None
         # before giving up (and before a previously discharged clause is reported as regressed): one more attempt with a 3x budget
         s3, r3 = _solve(ob, ground_ax, _ground_injectivity(list(ob.pc) + [ob.goal]) if quant_ax else [], _TIMEOUT_MS * 3)
         if r3 == z3.unsat:
